@@ -99,6 +99,7 @@ def random_ops(rng: random.Random, pool: list, length: int) -> list[dict]:
                 op["op"] = "partial"
             else:
                 op["j"] = rng.randrange(npobj)
+                op["style"] = rng.randrange(3)      # for Differential objects: at().component / component_at / component().at
         if kind == "fail_missing":
             q = dict(p)
             if vs:
@@ -168,6 +169,11 @@ def domain_prefixes(rng: random.Random, pool: list) -> list[list[dict]]:
             [op("pobj_new", G, j=0, kind="P"), op("pobj_at", G, j=0), op("pobj_expr", G, j=0), op("pobj_at", B, j=0),
              op("pobj_at", G, j=0)],
             [op("pobj_new", G, j=0, kind="FE"), op("pobj_at", B, j=0), op("pobj_at", G, j=0), op("at", G), op("pobj_at", B, j=0)],
+            [op("pobj_new", G, j=0, kind="FE"), op("pobj_at", B, j=0, style=1), op("pobj_at", B, j=0, style=1),
+             op("pobj_at", G, j=0, style=1), op("pobj_at", B, j=0, style=2), op("pobj_at", B, j=0, style=2)],
+            [op("pobj_new", G, j=0, kind="F"), op("pobj_at", B, j=0, style=1), op("pobj_at", B, j=0, style=1),
+             op("pobj_at", G, j=0, style=2), op("pobj_at", G, j=0, style=2)],
+            [op("pobj_new", G, j=0, kind="PE"), op("pobj_at", B, j=0), op("pobj_at", B, j=0), op("pobj_at", G, j=0), op("pobj_at", G, j=0)],
             [op("located", G), op("component_at", B), op("diff_at", G), op("partial", B), op("partial", G)],
         ]
         if len(vs) == 1:
@@ -247,6 +253,11 @@ class Runner:
             if o is None:
                 return ("ok", None)
             if isinstance(o, sm.Differential):
+                style = op.get("style", 0) % 3
+                if style == 1:
+                    return call(lambda: o.component_at(x, p), timeout=30)
+                if style == 2:
+                    return call(lambda: o.component(x).at(p), timeout=30)
                 return call(lambda: o.at(p).component(x), timeout=30)
             return call(lambda: o.at(p))
         if k == "pobj_expr":
